@@ -40,6 +40,15 @@ type ocHarness struct {
 	inClose int            // cache.Close calls in progress
 	closedC bool           // cache.Close returned
 	loadErr error
+	// lateLoader: this run's loader sometimes returns its object although the load's context has ended
+	lateLoader bool
+	// cur: the operation each task is inside (Close calls are attributed to it)
+	cur map[string]*ocCur
+}
+
+type ocCur struct {
+	kind   string
+	target *ocInst
 }
 
 var errLoad = errors.New("load refused")
@@ -74,8 +83,13 @@ func (h *ocHarness) load(ctx context.Context, id string) (ocache.Object, error) 
 	h.loading[id]--
 	// outcome
 	if ctx.Err() != nil {
-		h.ev("load-end", "%s aborted (ctx)", id)
-		return nil, ctx.Err()
+		// a loader may honour the cancellation, or may have finished its work as the context ended and return
+		// the object all the same: then the cache owns a live object and has to keep or close it
+		if !h.lateLoader || !h.r.Src.Flip("load-despite-cancel", 0.5) {
+			h.ev("load-end", "%s aborted (ctx)", id)
+			return nil, ctx.Err()
+		}
+		h.r.Fault("load-completes-after-cancel")
 	}
 	switch h.r.Src.Weighted("loadres", []int{8, 1, 1}) {
 	case 1:
@@ -95,6 +109,25 @@ func (h *ocHarness) load(ctx context.Context, id string) (ocache.Object, error) 
 	return o, nil
 }
 
+// attribute: a Close or TryClose runs on the goroutine of the operation that causes it; an operation that names
+// one instance (RemoveSame) or one id (Remove, TryRemove) must not close anything else.
+func (h *ocHarness) attribute(o *ocInst) {
+	cur := h.cur[h.s.CurrentName()]
+	if cur == nil {
+		return
+	}
+	switch cur.kind {
+	case "removesame":
+		if cur.target != o {
+			h.r.Fail("closed-other-instance", "removesame", "RemoveSame(%v) closes %v, which is not the instance it was given", cur.target, o)
+		}
+	case "remove", "tryremove":
+		if cur.target.id != o.id {
+			h.r.Fail("closed-other-instance", cur.kind, "%s(%s) closes %v", cur.kind, cur.target.id, o)
+		}
+	}
+}
+
 func (o *ocInst) Close() error {
 	h := o.h
 	o.closeCalls++
@@ -102,6 +135,7 @@ func (o *ocInst) Close() error {
 		h.r.Fail("double-close", "", "%v: Close called %d times (closed=%v)", o, o.closeCalls, o.closed)
 	}
 	h.ev("close-start", "%v", o)
+	h.attribute(o)
 	h.s.Park("close")
 	o.closed = true
 	o.closedSeq = h.ev("close-end", "%v", o)
@@ -117,6 +151,7 @@ func (o *ocInst) TryClose(ttl time.Duration) (bool, error) {
 		h.r.Fail("double-close", "tryclose", "%v: TryClose after the instance was closed", o)
 	}
 	h.ev("tryclose-start", "%v", o)
+	h.attribute(o)
 	h.s.Park("tryclose")
 	v := h.r.Src.Weighted("tryclose", []int{10, 10, 1, 1})
 	switch v {
@@ -154,7 +189,9 @@ func init() { props["C16"] = runC16 }
 func runC16(r *core.Run) {
 	s := r.Src
 	sch := core.NewSched(r)
-	h := &ocHarness{r: r, s: sch, loading: map[string]int{}}
+	h := &ocHarness{r: r, s: sch, loading: map[string]int{}, cur: map[string]*ocCur{}}
+	h.lateLoader = s.Flip("late-loader", 0.4)
+	r.SetCfg("late_loader", h.lateLoader)
 	simhook.YieldFn = func(p string) { sch.Park(p) }
 	simhook.PermFn = func(point string, n int) []int {
 		if n < 2 {
@@ -376,7 +413,9 @@ func (h *ocHarness) doOp(ctx context.Context, task string, op ocOp, lastGot map[
 		h.ev("add-return", "%s err=%v", op.id, errName(err))
 	case "remove":
 		h.ev("remove-invoke", "%s", op.id)
+		h.cur[task] = &ocCur{"remove", &ocInst{id: op.id}}
 		ok, err := c.Remove(ctx, op.id)
+		delete(h.cur, task)
 		h.ev("remove-return", "%s ok=%v err=%v", op.id, ok, errName(err))
 	case "removesame":
 		o := lastGot[task]
@@ -388,7 +427,9 @@ func (h *ocHarness) doOp(ctx context.Context, task string, op ocOp, lastGot map[
 		}
 		wasLive := o.loaded && !o.closed
 		h.ev("removesame-invoke", "%v", o)
+		h.cur[task] = &ocCur{"removesame", o}
 		ok, err := c.RemoveSame(ctx, o.id, o)
+		delete(h.cur, task)
 		h.ev("removesame-return", "%v ok=%v err=%v", o, ok, errName(err))
 		if ok && !o.closed {
 			r.Fail("remove-not-closed", "removesame", "RemoveSame(%v) returned ok but the instance was not closed", o)
@@ -396,7 +437,9 @@ func (h *ocHarness) doOp(ctx context.Context, task string, op ocOp, lastGot map[
 		_ = wasLive
 	case "tryremove":
 		h.ev("tryremove-invoke", "%s", op.id)
+		h.cur[task] = &ocCur{"tryremove", &ocInst{id: op.id}}
 		ok, err := c.TryRemove(op.id)
+		delete(h.cur, task)
 		h.ev("tryremove-return", "%s ok=%v err=%v", op.id, ok, errName(err))
 	case "gc":
 		h.ev("gc-invoke", "")
